@@ -23,7 +23,11 @@ D0 == Scalars
 D1 == D0 \cup MapsOver(NKeys, D0, MaxFields) \cup ArraysOver(D0, MaxFields)
 D2 == D0 \cup MapsOver(NKeys, D1, MaxFields) \cup ArraysOver(D1, MaxFields)
 \* depth <= 3 counting the record itself: one field holding anything of D2, or up to MaxFields fields over D1
-NestedRecs == {b \in Bodies(NKeys, D2, 1) : Len(b) = 1} \cup {b \in Bodies(NKeys, D1, MaxFields) : Len(b) >= 1}
+\* keys that READ as the numbers 1, 2 but are not their canonical spelling (zero-padded months, sequence numbers,
+\* a plus sign), and 0 / 10: only a map whose keys are exactly "1".."n" in order is taken for an array
+NumLike == {K("1"), K("2"), <<"0", "1">>, <<"0", "2">>, <<"+", "1">>, <<"+", "2">>, K("0"), <<"1", "0">>}
+NumLikeRecs == {<< <<K("a"), M(b)>> >> : b \in {x \in Bodies(NumLike, {S("x")}, 2) : Len(x) >= 1}}
+NestedRecs == {b \in Bodies(NKeys, D2, 1) : Len(b) = 1} \cup {b \in Bodies(NKeys, D1, MaxFields) : Len(b) >= 1} \cup NumLikeRecs
 
 \* keys that contain one flatten separator (and are free of the others), small depth
 SKeys == {K("a"), <<"p", ".", "q">>, <<"u", ":", "v">>, <<"1">>}
